@@ -83,6 +83,22 @@ def worker(args):
             pname = payload_name(payload)
             sender = next((k for k, v in SENDERS.items() if v == frm), "?")
             w = {"managers": mname, "iq": {"id": iid, "type": typ, "from": frm, "payload": payload[:500]}, "replies": [g["xml"][:400] for g in got]}
+            if iid is not None and iid.startswith("echo-"):
+                # a request directly followed by a response with the same sender and id (our reply bounced, or a confused peer):
+                # one reply for the pair - the one to the request
+                if typ in ("get", "set"):
+                    stats["requests"] += 1
+                    if len(got) == 0:
+                        viol.append(("request-unanswered %s %s other-entity [%s]" % (typ, pname, mname), "IQ %s request %s from %s got no reply at all" % (typ, pname, sender), w))
+                else:
+                    stats["responses"] += 1
+                    stats["echo_pairs"] += 1
+                    if len(got) > 1:
+                        viol.append(("response-answered %s %s [%s] (same sender and id as the request before it)" % (typ, pname, mname),
+                                     "an IQ of type %s that directly follows a request with the same sender and id was answered as if it were a request" % typ, w))
+                    else:
+                        stats["responses_silent"] += 1
+                continue
             if typ in ("get", "set"):
                 stats["requests"] += 1
                 if len(got) == 0:
@@ -151,6 +167,17 @@ def main(tier, replay=None):
             inj.append(("dup-req-1", "get", "mallory@evil.example/x", "<ping xmlns='urn:xmpp:ping'/>"))
             inj.append((None, "get", "bob@example.org/phone", "<query xmlns='jabber:iq:version'/>"))
             sessions.append((cname, managers, bare, inj))
+        # echo pairs: every payload kind as a request, directly followed by a result / an error with the same sender, id (and payload)
+        ep = []
+        for pi, (pname, p) in enumerate(payloads):
+            for rt in ("result", "error"):
+                for frm in ("contact", "server-domain"):
+                    eid = "echo-%s-%d-%s-%s" % (cname, pi, rt, frm)
+                    body = p if rt == "result" else p + "<error type='cancel'><service-unavailable xmlns='urn:ietf:params:xml:ns:xmpp-stanzas'/></error>"
+                    ep.append([(eid, r.choice(["get", "set"]), SENDERS[frm], p), (eid, rt, SENDERS[frm], body)])
+        r.shuffle(ep)
+        for k in range(0, len(ep), 60):
+            sessions.append((cname, managers, bare, [x for pair in ep[k:k + 60] for x in pair]))
         # an IQ whose type is absent or not one of the four values makes the client close the stream ("unexpected element"):
         # allowed (DON'T-CARE), so each gets a session of its own and only "at most one reply, no crash" is required
         for i, (typ, frm, p) in enumerate(odd):
@@ -168,8 +195,8 @@ def main(tier, replay=None):
         stats.update(st)
     cov = {"evaluations": stats["injected"], "distinct_nontrivial": stats["answered_once"] + stats["responses_silent"],
            "rule": "IQs injected by a fake server into a real, connected QXmppClient: type {get,set,result,error,absent,garbage,empty} x payload (first child of each of the %d distinct IQ payload kinds of the fixtures, unknown, none, several) "
-                   "x sender (%s) x extension set {none, defaults, all bundled managers}, unique ids, plus an id duplicating an outstanding request and an absent id; replies counted on the server transcript after an XEP-0198 fence, "
+                   "x sender (%s) x extension set {none, defaults, all bundled managers}, unique ids, plus an id duplicating an outstanding request, an absent id, and echo pairs (every payload kind as a request directly followed by a result / an error with the same sender and id: one reply for the pair); replies counted on the server transcript after an XEP-0198 fence, "
                    "an idle settle and a second fence; distinct_nontrivial = requests answered exactly once + responses left unanswered" % (len(payloads), "6 senders" if tier != "quick" else "4 senders"),
            "observed": dict(stats), "payload_kinds": len(payloads), "sessions": len(sessions), "samples": [{"iq": "<iq id='inj-0-0' type='get' from='bob@example.org/phone'>%s</iq>" % payloads[3][1][:200]}]}
-    floors = {"requests": stats["requests"] > 100, "responses": stats["responses"] > 100, "answered_once": stats["answered_once"] > 0}
+    floors = {"requests": stats["requests"] > 100, "responses": stats["responses"] > 100, "answered_once": stats["answered_once"] > 0, "echo_pairs": stats["echo_pairs"] > 100}
     V.finish(cov, "exploration", ["counting happens on the fake server's transcript of a loopback TCP connection", "a reply produced later than the settle window (30 ms of silence after an XEP-0198 fence) would be missed"], floors)
